@@ -365,7 +365,7 @@ func emitCall(w *bufio.Writer, sc *scenario, id, reps int, kind, extra string) {
 	fmt.Fprintf(w, "end\n")
 	// every third scenario: probes that involve a second function object or option-less calls
 	if id%3 == 0 && kind == "call" {
-		fmt.Fprintf(w, "scn probe %d\nsibling %s\nbare %s\nend\n", id, siblingProbe(sc, sc.callArgs(false)), bareProbe(sc))
+		fmt.Fprintf(w, "scn probe %d\nsibling %s\nbare %s\npassthru %s\nend\n", id, siblingProbe(sc, sc.callArgs(false)), bareProbe(sc), passthruProbe())
 	}
 	w.Flush()
 }
